@@ -31,6 +31,10 @@ CORPUS = [
     ("try", [("const", ("int", -3)), ("raise", ("const", ("exn", 2)))], [], [("do", [])], [("do", [])]),
     ("try", [("const", ("int", 1))], [], None, [("do", [])]),
     ("try", [("log", 1, ("const", ("int", 1)))], [(("one", 1), [("const", ("int", 2))])], None, []),
+    # fixed cfc331c: the renaming shortcut of compile_assign fired although the value was a larger expression that only
+    # mentions the temporary -- the last operand of (setv x (and (if c (do (s) a) b) d)) was dropped
+    ("setv", 0, ("bool", True, [("if", ("var", 1), ("do", [("log", 1, ("const", ("int", 1))), ("var", 2)]), ("var", 3)), ("log", 2, ("var", 3))])),
+    ("setx", 0, ("bool", False, [("if", ("var", 1), ("do", [("log", 1, ("const", ("int", 0))), ("var", 2)]), ("var", 3)), ("log", 2, ("const", ("int", 7)))])),
     ("setv", 0, ("bool", True, [("var", 1), ("do", [("setv", 2, ("var", 0)), ("var", 2)])])),              # finding C01-result-rename
 ]
 
